@@ -1066,6 +1066,17 @@ func (m *repoManager) deleteRepo(uuid dvid.UUID, passcode string) error {
 	// Persist the id maps, otherwise a restart brings the deleted repo's UUIDs back.
 	err := m.putCachesLocked()
 	m.idMutex.Unlock()
+
+	// Drop the repo's branch heads: a later repo given the same root UUID must not resolve them.
+	m.branchMutex.Lock()
+	for _, node := range r.dag.nodes {
+		if node.branch == "" {
+			delete(m.branchToUUID, string(r.uuid)+"master")
+		} else {
+			delete(m.branchToUUID, string(r.uuid)+node.branch)
+		}
+	}
+	m.branchMutex.Unlock()
 	return err
 }
 
